@@ -1,4 +1,5 @@
 #!/bin/bash
+. "$(cd "$(dirname "$0")" && pwd)/env.sh"
 # Runs the vmon-miri workloads whose test name contains <test-filter> under ThreadSanitizer
 # (nightly, -Zbuild-std, C-free build of c2pa so that no uninstrumented C runs) and prints ONE JSON line:
 #   {"engine":"tsan","filter":..,"ran":bool,"passed":N,"failed":N,"reports":N,"first_report_sig":..,"seconds":N,"repeats":N,"log":..}
